@@ -204,6 +204,33 @@ pub fn best_replica_is_written(run: &mut Run, tier: Tier) -> (u64, u64) {
     (n, interpretable)
 }
 
+/// C10: more replications never give a lower score - also across the default of 100 (the replicas
+/// of a run with k replications are the first k of a run with more).
+pub fn more_replicas_never_worse(run: &mut Run) -> u64 {
+    let ks: Vec<u64> = vec![1, 2, 7, 50, 99, 100, 101, 120, 250];
+    let res = par_map(&ks, |_, &k| {
+        let mut b = BuildOptimiser::default();
+        b.steps(60).inner_steps(20).kt_start(0.05).kt_finish(0.001).max_step_size(0.2);
+        run_pipeline(Landscape::Bumpy(1.), 0.31, k, &b, 4).map(|(doc, _)| bumpy(1., doc["p"].as_f64().unwrap_or(f64::NAN)))
+    });
+    let mut prev: Option<(u64, f64)> = None;
+    for (i, r) in res.into_iter().enumerate() {
+        let case = json!({"engine": "pipeline", "landscape": "bumpy", "scale": 1., "replications": ks[i], "threads": 4, "start": 0.31});
+        match r {
+            Err(e) => run.fail(None, &format!("in-process pipeline on a recording state: {}", e), case),
+            Ok(score) => {
+                if let Some((pk, ps)) = prev {
+                    if !(score >= ps) {
+                        run.fail(None, &format!("{} replications give a lower score ({}) than {} ({}): the replicas of the shorter run are not among those of the longer one", ks[i], score, pk, ps), case);
+                    }
+                }
+                prev = Some((ks[i], score));
+            }
+        }
+    }
+    ks.len() as u64
+}
+
 /// C18 at the command line: the temperature asked for reaches the annealing stage. On a landscape
 /// where every evaluation is worse than all before by d, a pipeline run moves the state iff some
 /// stage accepts worse moves: it must for kt_start >> d and must not for kt_start = 0.
